@@ -203,6 +203,30 @@ def rebuild_step(ses, rep):
     rep.bounds["rebuild_paths"] = n
     if n == 0:
         raise Inconclusive("sort_requires: rebuild loop not recognised")
+    # every closure that turns a group member back into a statement must hand back the member's own (Stmt, semicolon) pair
+    member_ty = re.compile(r"\(std::string::String, \(Stmt, std::option::Option<TokenReference>\)\)")
+    for n_, l in ex.funcs.items():
+        if not re.match(r"sort_requires::\{closure#\d+\}$", n_):
+            continue
+        for f in l:
+            if len(f.params) != 2 or not member_ty.search(f.params[1][1]) or not re.search(r"\(Stmt, std::option::Option<TokenReference>\)$", f.ret.strip()):
+                continue
+            ex3 = ses.executor("lib", "default", inline=lambda n2, f2: False)
+            ses.report.fn(f)
+            by_ref = f.params[1][1].strip().startswith("&")
+            member = ex3.fresh_lazy(f.params[1][1].lstrip("&").strip(), "member")
+            env = ex3.fresh_lazy("closure", "env")
+            for pi, o in enumerate(ex3.run(f, [RefV(env) if f.params[0][1].startswith("&") else env, RefV(member) if by_ref else member])):
+                if o.kind != "return":
+                    continue
+                v = deref_val(ex3, o.state, o.value)
+                pair = ex3.lazy_tab.get((member.oid, ("field", 1)))
+                same = isinstance(v, Lazy) and pair is not None and v.oid == pair.oid
+                r, m = ses.obligation(f"rebuild/{n_}/path{pi}/member-emitted-with-its-own-semicolon", list(o.pc), z3.BoolVal(not same),
+                                      "a group member is re-emitted as its own (statement, semicolon) pair")
+                if r == "sat":
+                    flagged.append((f"rebuild/{n_}/path{pi}/member-emitted-with-its-own-semicolon",
+                                    "a require-group member is re-emitted without its own statement/semicolon pair", "members", {}))
     # key closure: the variable name
     return flagged
 
@@ -241,11 +265,16 @@ BATTERY = [
     ("out-of-range-group", R("b") + R("a") + "local v   =   1\n", ["--sort-requires", "--range-start", "50"], R("b") + R("a") + "local v = 1\n"),
     ("partly-in-range-group", R("b") + R("a") + "local v   =   1\n", ["--sort-requires", "--range-start", "30"], R("b") + R("a") + "local v = 1\n"),
     ("off", R("b") + R("a"), [], R("b") + R("a")),
+    ("blank-line-with-spaces", R("b") + R("a") + "  \t\n" + R("d") + R("c"), ["--sort-requires"], R("a") + R("b") + "\n" + R("c") + R("d")),
+    ("blank-line-crlf", (R("b") + R("a") + "\n" + R("d") + R("c")).replace("\n", "\r\n"), ["--sort-requires"], R("a") + R("b") + "\n" + R("c") + R("d")),
+    ("semicolon-comments", 'local b = require("b"); -- CB\nlocal a = require("a"); -- CA\n', ["--sort-requires"],
+     'local a = require("a") -- CA\nlocal b = require("b") -- CB\n'),
     ("stable-duplicates", 'local a = require("x")\nlocal B = require("y")\nlocal a = require("z")\n', ["--sort-requires"],
      'local B = require("y")\nlocal a = require("x")\nlocal a = require("z")\n'),
 ]
 TRIVIA = ("comment-on-moved-member", R("b") + "--[[c]] " + R("a"), ["--sort-requires"], "--[[c]]")
-KIND2SCEN = {"grouping": ["blank-line-splits", "statement-splits", "kinds-do-not-merge", "wrapped-require", "sorted"],
+KIND2SCEN = {"grouping": ["blank-line-splits", "statement-splits", "kinds-do-not-merge", "wrapped-require", "sorted", "blank-line-with-spaces", "blank-line-crlf"],
+             "members": ["semicolon-comments", "sorted", "stable-duplicates"],
              "guard": ["ignored-member", "out-of-range-group", "partly-in-range-group"], "sort": ["sorted", "stable-duplicates", "blank-line-splits"],
              "enabled": ["off", "sorted"]}
 
